@@ -2,7 +2,12 @@
    Diff/Store.v, the proofs are in Diff/StoreProofs.v, and the configuration constants (patch_cfg,
    dso_restore_protected, apply_copies_base) are GENERATED from /repo's source into Gen/C13Facts.v on every run. *)
 From Coq Require Import List.
-From NB Require Import Base.Res Base.Json Diff.DiffFormat Diff.Store Diff.StoreProofs Gen.C13Facts.
+From NB Require Import Base.Res.
+From NB Require Import Base.Json.
+From NB Require Import Diff.DiffFormat.
+From NB Require Import Diff.Store.
+From NB Require Import Diff.StoreProofs.
+From NB Require Import Gen.C13Facts.
 Import ListNotations.
 
 (* patch(obj, diff) writes to no object that existed before the call: the heap only grows.  So the base, the diff
